@@ -26,13 +26,18 @@ type Mutex struct {
 	held atomic.Int32
 }
 
+// The bookkeeping (held, readers, ...) is only touched by scheduled logical threads: a free-running
+// caller performs exactly the real operation, so that a race-detector run of the same code sees the
+// happens-before edges of the real primitives and no others.
 func (m *Mutex) Lock() {
-	if sched.Active() {
-		sched.Point("Mutex.Lock")
-		for m.held.Load() != 0 {
-			if !sched.Block("Mutex.Lock(wait)", func() bool { return m.held.Load() == 0 }) {
-				break
-			}
+	if !sched.Active() {
+		m.mu.Lock()
+		return
+	}
+	sched.Point("Mutex.Lock")
+	for m.held.Load() != 0 {
+		if !sched.Block("Mutex.Lock(wait)", func() bool { return m.held.Load() == 0 }) {
+			break
 		}
 	}
 	m.mu.Lock()
@@ -40,6 +45,9 @@ func (m *Mutex) Lock() {
 }
 
 func (m *Mutex) TryLock() bool {
+	if !sched.Active() {
+		return m.mu.TryLock()
+	}
 	sched.Point("Mutex.TryLock")
 	if m.mu.TryLock() {
 		m.held.Store(1)
@@ -49,6 +57,10 @@ func (m *Mutex) TryLock() bool {
 }
 
 func (m *Mutex) Unlock() {
+	if !sched.Active() {
+		m.mu.Unlock()
+		return
+	}
 	sched.Point("Mutex.Unlock")
 	m.held.Store(0)
 	m.mu.Unlock()
@@ -65,12 +77,14 @@ type RWMutex struct {
 }
 
 func (m *RWMutex) Lock() {
-	if sched.Active() {
-		sched.Point("RWMutex.Lock")
-		for m.writer.Load() != 0 || m.readers.Load() != 0 {
-			if !sched.Block("RWMutex.Lock(wait)", func() bool { return m.writer.Load() == 0 && m.readers.Load() == 0 }) {
-				break
-			}
+	if !sched.Active() {
+		m.mu.Lock()
+		return
+	}
+	sched.Point("RWMutex.Lock")
+	for m.writer.Load() != 0 || m.readers.Load() != 0 {
+		if !sched.Block("RWMutex.Lock(wait)", func() bool { return m.writer.Load() == 0 && m.readers.Load() == 0 }) {
+			break
 		}
 	}
 	m.mu.Lock()
@@ -78,6 +92,10 @@ func (m *RWMutex) Lock() {
 }
 
 func (m *RWMutex) Unlock() {
+	if !sched.Active() {
+		m.mu.Unlock()
+		return
+	}
 	sched.Point("RWMutex.Unlock")
 	m.writer.Store(0)
 	m.mu.Unlock()
@@ -85,12 +103,14 @@ func (m *RWMutex) Unlock() {
 }
 
 func (m *RWMutex) RLock() {
-	if sched.Active() {
-		sched.Point("RWMutex.RLock")
-		for m.writer.Load() != 0 {
-			if !sched.Block("RWMutex.RLock(wait)", func() bool { return m.writer.Load() == 0 }) {
-				break
-			}
+	if !sched.Active() {
+		m.mu.RLock()
+		return
+	}
+	sched.Point("RWMutex.RLock")
+	for m.writer.Load() != 0 {
+		if !sched.Block("RWMutex.RLock(wait)", func() bool { return m.writer.Load() == 0 }) {
+			break
 		}
 	}
 	m.mu.RLock()
@@ -98,6 +118,10 @@ func (m *RWMutex) RLock() {
 }
 
 func (m *RWMutex) RUnlock() {
+	if !sched.Active() {
+		m.mu.RUnlock()
+		return
+	}
 	sched.Point("RWMutex.RUnlock")
 	m.readers.Add(-1)
 	m.mu.RUnlock()
@@ -105,6 +129,9 @@ func (m *RWMutex) RUnlock() {
 }
 
 func (m *RWMutex) TryLock() bool {
+	if !sched.Active() {
+		return m.mu.TryLock()
+	}
 	sched.Point("RWMutex.TryLock")
 	if m.mu.TryLock() {
 		m.writer.Store(1)
@@ -114,6 +141,9 @@ func (m *RWMutex) TryLock() bool {
 }
 
 func (m *RWMutex) TryRLock() bool {
+	if !sched.Active() {
+		return m.mu.TryRLock()
+	}
 	sched.Point("RWMutex.TryRLock")
 	if m.mu.TryRLock() {
 		m.readers.Add(1)
@@ -137,6 +167,7 @@ type Once struct {
 	running atomic.Int32
 }
 
+// (done is read with an atomic load before the lock is taken, exactly as the real sync.Once does.)
 func (o *Once) Do(f func()) {
 	sched.Point("Once.Do")
 	if o.done.Load() == 1 {
@@ -238,44 +269,6 @@ func OnceValues[T1, T2 any](f func() (T1, T2)) func() (T1, T2) {
 	}
 }
 
-// ---- Pool (deterministic) ----
-
-type Pool struct {
-	mu    gosync.Mutex
-	items []any
-	New   func() any
-}
-
-func (p *Pool) Get() any {
-	sched.Point("Pool.Get")
-	p.mu.Lock()
-	var x any
-	if n := len(p.items); n > 0 {
-		x = p.items[n-1]
-		p.items[n-1] = nil
-		p.items = p.items[:n-1]
-	}
-	p.mu.Unlock()
-	if x == nil && p.New != nil {
-		x = p.New()
-	}
-	return x
-}
-
-func (p *Pool) Put(x any) {
-	sched.Point("Pool.Put")
-	if x == nil {
-		return
-	}
-	p.mu.Lock()
-	if len(p.items) < 4096 {
-		p.items = append(p.items, x)
-	}
-	p.mu.Unlock()
-	// a second point after the release: the object now belongs to whoever gets it next
-	sched.Point("Pool.Put(after)")
-}
-
 // ---- WaitGroup ----
 
 type WaitGroup struct {
@@ -288,6 +281,9 @@ func (w *WaitGroup) Add(delta int) {
 	w.n.Add(int64(delta))
 	w.wg.Add(delta)
 }
+
+// (the counter n mirrors the real WaitGroup's own atomic counter: Add/Done/Wait of the real one
+// synchronise in the same way, so it adds no happens-before edge the real type does not have.)
 
 func (w *WaitGroup) Done() { w.Add(-1) }
 
